@@ -27,7 +27,9 @@ func checkC12(c *Ctx, p *Prog, r *Result) {
 		}
 	}
 	e := newE3(p, r, rootNames, extra)
-	inCbor := func(fn *ssa.Function) bool { return strings.HasPrefix(funcPkgPath(fn), modulePath+"/cbor") && !strings.HasSuffix(funcPkgPath(fn), "/cdn") }
+	inCbor := func(fn *ssa.Function) bool {
+		return strings.HasPrefix(funcPkgPath(fn), modulePath+"/cbor") && !strings.HasSuffix(funcPkgPath(fn), "/cdn")
+	}
 	// restrict to the codec itself: other packages' unmarshalers are judged under C10
 	var order []*ssa.Function
 	for _, fn := range e.order {
